@@ -130,11 +130,32 @@ class history {
 
  public:
   history(u64 idx, vh::rng& r_, const vh::args& a) : r(r_) {
-    (void)idx;
     const bool bytestring = std::is_same_v<K, unodb::key_view>;
-    const auto hint = r.chance(0.2) ? 120 + r.below(300) : 6 + r.below(60);
-    uni = vu::make_universe(r, bytestring, hint);
     nops = a.num("ops", 160);
+    // every 4th turn of a class: a "ladder" - 64 keys differing in one byte, filled past 49 children and drained
+    // again, so that every grow and shrink transition up to I256 happens in every class whatever the seed
+    // (the random families reach I256 only in a few large histories)
+    ladder = (idx / 7) % 4 == 0;
+    if (ladder) {
+      uni = vu::universe{};
+      uni.u64 = !bytestring;
+      uni.family = "ladder";
+      uni.sh = vu::shape::FIXED;
+      uni.len = 8;
+      const u64 base = r.next();
+      const auto pos = r.below(8);
+      const auto start = r.below(256);
+      for (u64 i = 0; i < 64; ++i) {
+        bytes k = vm::u64_key(base);
+        k[pos] = static_cast<char>((start + i * (1 + 2 * (base & 1))) & 0xFF);
+        uni.keys.push_back(k);
+      }
+      nops = std::max<std::size_t>(nops, 200);
+      rep().count("ladder_histories");
+    } else {
+      const auto hint = r.chance(0.2) ? 120 + r.below(300) : 6 + r.below(60);
+      uni = vu::make_universe(r, bytestring, hint);
+    }
     if (uni.keys.size() > 200) nops *= 2;
     tag = std::string(I::name) + "." + keyconv<K>::name;
   }
@@ -153,6 +174,7 @@ class history {
     rep().count("histories." + tag);
   }
   bool poisoned{false};
+  bool ladder{false};
 
  private:
   void fail(const std::string& oracle, const std::string& what, json w = json::object()) {
@@ -259,10 +281,14 @@ class history {
 
   void step() {
     const auto x = r.below(100);
-    const bool ins = model.empty() || x < 58;
+    bool ins = model.empty() || x < 58;
+    if (ladder) ins = model.empty() || (op < 75 ? x < 92 : (op < 150 ? x < 8 : x < 50));  // fill, drain, churn
     bytes k;
     if (ins) k = r.chance(0.1) && !model.empty() ? pick_present() : r.pick(uni.keys);
     else k = r.chance(0.85) ? pick_present() : r.pick(uni.keys);
+    if (ladder && ins && op < 75 && model.count(k) != 0 && r.chance(0.9)) {  // fill phase: prefer absent keys
+      for (const auto& c : uni.keys) if (model.count(c) == 0) { k = c; break; }
+    }
     if (std::is_same_v<K, unodb::key_view>) {
       if (ins && !vu::admissible_insert(model, k)) return;
       if (!ins && !vu::admissible_remove(model, k)) return;
